@@ -243,6 +243,20 @@ impl<Context: ServerContext> HttpRouter<Context> {
 
         let mut all_segments = all_segments.into_iter();
         let mut varnames: BTreeSet<String> = BTreeSet::new();
+        let methodname = method.as_str().to_uppercase();
+
+        // A request for exactly the path of a node matches both the node's own
+        // handlers and those of its wildcard child (with an empty remainder),
+        // so the two sets must not share a method and version.
+        let conflicts_with = |handlers: Option<&Vec<ApiEndpoint<Context>>>| {
+            handlers
+                .map(|handlers| {
+                    handlers
+                        .iter()
+                        .any(|h| h.versions.overlaps_with(&endpoint.versions))
+                })
+                .unwrap_or(false)
+        };
 
         let mut node: &mut Box<HttpRouterNode<Context>> = &mut self.root;
         while let Some(raw_segment) = all_segments.next() {
@@ -338,6 +352,16 @@ impl<Context: ServerContext> HttpRouter<Context> {
 
                     insert_var(&path, &mut varnames, &new_varname);
 
+                    if conflicts_with(node.methods.get(&methodname)) {
+                        panic!(
+                            "URI path \"{}\": attempted to register a wildcard \
+                             route for method \"{}\" whose empty match overlaps \
+                             with an existing route for the same path without \
+                             the wildcard",
+                            path, methodname
+                        );
+                    }
+
                     let edges = node.edges.get_or_insert(
                         HttpRouterEdges::VariableRest(
                             new_varname.clone(),
@@ -390,7 +414,18 @@ impl<Context: ServerContext> HttpRouter<Context> {
             };
         }
 
-        let methodname = method.as_str().to_uppercase();
+        if let Some(HttpRouterEdges::VariableRest(_, wildcard_node)) = &node.edges
+        {
+            if conflicts_with(wildcard_node.methods.get(&methodname)) {
+                panic!(
+                    "URI path \"{}\": attempted to register a route for method \
+                     \"{}\" that overlaps with the empty match of an existing \
+                     wildcard route below the same path",
+                    path, methodname
+                );
+            }
+        }
+
         let existing_handlers =
             node.methods.entry(methodname.clone()).or_default();
 
@@ -496,24 +531,40 @@ impl<Context: ServerContext> HttpRouter<Context> {
             })?
         }
 
-        // The wildcard match consumes the implicit, empty path segment
-        match &node.edges {
-            Some(HttpRouterEdges::VariableRest(varname, new_node)) => {
-                variables
-                    .insert(varname.clone(), VariableValue::Components(vec![]));
+        // A wildcard child of the final node also matches, with an empty list
+        // of remaining segments.
+        let wildcard = match &node.edges {
+            Some(HttpRouterEdges::VariableRest(varname, wildcard_node)) => {
                 // There should be no outgoing edges
-                assert!(new_node.edges.is_none());
-                node = new_node;
+                assert!(wildcard_node.edges.is_none());
+                Some((varname, wildcard_node))
             }
-            _ => {}
-        }
+            _ => None,
+        };
 
-        // First, look for a matching implementation.
+        // First, look for a matching implementation: at the node itself, then
+        // at its wildcard child.  (Registration guarantees that at most one of
+        // them has a handler for a given method and version.)
         let methodname = method.as_str().to_uppercase();
-        if let Some(handler) = find_handler_matching_version(
+        let found = find_handler_matching_version(
             node.methods.get(&methodname).map(|v| v.as_slice()).unwrap_or(&[]),
             version,
-        ) {
+        )
+        .or_else(|| {
+            let (varname, wildcard_node) = wildcard?;
+            let handler = find_handler_matching_version(
+                wildcard_node
+                    .methods
+                    .get(&methodname)
+                    .map(|v| v.as_slice())
+                    .unwrap_or(&[]),
+                version,
+            )?;
+            variables
+                .insert(varname.clone(), VariableValue::Components(vec![]));
+            Some(handler)
+        });
+        if let Some(handler) = found {
             return Ok(RouterLookupResult {
                 handler: Arc::clone(&handler.handler),
                 endpoint: RequestEndpointMetadata {
@@ -529,9 +580,17 @@ impl<Context: ServerContext> HttpRouter<Context> {
         // We're going to report a 404 ("Not Found") or 405 ("Method Not
         // Allowed").  It's a 405 if there are any handlers matching this path
         // and version for a different method.  It's a 404 otherwise.
-        if node.methods.values().any(|handlers| {
-            find_handler_matching_version(handlers, version).is_some()
-        }) {
+        let allowed = node
+            .methods
+            .iter()
+            .chain(wildcard.iter().flat_map(|(_, n)| n.methods.iter()))
+            .filter(|(_, handlers)| {
+                find_handler_matching_version(handlers.as_slice(), version)
+                    .is_some()
+            })
+            .map(|(method, _)| method)
+            .collect::<BTreeSet<_>>();
+        if !allowed.is_empty() {
             let mut err = HttpError::for_client_error_with_status(
                 None,
                 ClientErrorStatusCode::METHOD_NOT_ALLOWED,
@@ -546,14 +605,11 @@ impl<Context: ServerContext> HttpRouter<Context> {
             //
             // See: https://httpwg.org/specs/rfc9110.html#status.405
             if let Some(hdrs) = err.headers.as_deref_mut() {
-                hdrs.reserve(node.methods.len());
+                hdrs.reserve(allowed.len());
             }
-            // Only list the methods that are served at the requested version.
-            for (allowed, handlers) in &node.methods {
-                if find_handler_matching_version(handlers, version).is_none() {
-                    continue;
-                }
-                err.add_header(http::header::ALLOW, allowed)
+            // Only the methods served at the requested version are listed.
+            for method in allowed {
+                err.add_header(http::header::ALLOW, method)
                     .expect("method should be a valid allow header");
             }
             Err(err)
